@@ -40,7 +40,7 @@ def gen_run(rng, execs=("j1", "thread", "process"), maxjobs=6, perturb=True):
 
 def plan_of(run, extra=None):
     p = {"seed": run.get("seed", 1)}
-    for k in ("sched", "pct_depth", "pct_steps", "sel_timeout", "wait_lag", "loadavg", "chunk", "crash_op", "crash_prefix",
+    for k in ("sched", "pct_depth", "pct_steps", "sel_timeout", "wait_lag", "loadavg", "chunk", "crash_op", "crash_prefix", "crash_sig",
               "readdir_shuffle", "dt_unknown", "clock", "alloc", "max_steps", "die"):
         if k in run:
             p[k] = run[k]
@@ -48,6 +48,47 @@ def plan_of(run, extra=None):
     if extra:
         p.update(extra)
     return p
+
+
+PROJECT_DEFS = ["", "", "-DCFG_A", "-DCFG_B", "-DCFG_A -DCFG_B", "-UCFG_A", "-DCFG_V=2", "-std=c99"]
+
+
+def gen_project_mode(rng, units, p):
+    """With probability p the units are handed to cppcheck through a generated compile_commands.json (--project=): the
+    executors then walk their FileSettings list instead of the file list - separate code in all three executors and in the
+    build-dir bookkeeping (files.txt records carry a configuration and a file-settings id). Optionally one unit is listed
+    twice with different defines. Always draws the same number of values."""
+    on = rng.chance(p)
+    defs = {u: rng.choice(PROJECT_DEFS) for u in units}
+    dup = rng.choice(units) if rng.chance(0.3) else None
+    return {"defs": defs, "dup": dup} if on else None
+
+
+def input_args(scn, units, tree_dir, wd, tag):
+    """The input part of the command line: the units themselves, or --project=<generated compile database>."""
+    pm = scn.get("project")
+    if not pm:
+        return list(units)
+    import json
+    db = []
+    for u in units:
+        db.append({"directory": tree_dir, "arguments": ["gcc"] + pm["defs"].get(u, "").split() + ["-c", u], "file": u})
+        if pm.get("dup") == u:
+            db.append({"directory": tree_dir, "arguments": ["gcc", "-DCFG_DUP", "-DCFG_B", "-c", u], "file": u})
+    path = os.path.join(wd, tag + ".cdb.json")
+    with open(path, "w") as f:
+        json.dump(db, f)
+    return ["--project=" + path]
+
+
+def project_candidates(scn):
+    import copy
+    if scn.get("project"):
+        c = copy.deepcopy(scn); c["project"] = None
+        yield c
+        if scn["project"].get("dup"):
+            c = copy.deepcopy(scn); c["project"]["dup"] = None
+            yield c
 
 
 def not_meta(f):
